@@ -115,8 +115,13 @@ def facts_dir(repo=REPO):
         os.utime(d, None)
         # keep at most 4 cache entries (more while parallel scratch runs are in flight)
         keep = int(os.environ.get("HCHECK_CACHE_KEEP", "4"))
-        ents = sorted((e for e in os.listdir(CACHE) if e.startswith("facts-")),
-                      key=lambda e: os.path.getmtime(os.path.join(CACHE, e)))
+        def _mtime(e):
+            try:
+                return os.path.getmtime(os.path.join(CACHE, e))
+            except OSError:             # evicted by a concurrent run between listdir and stat
+                return 0.0
+        ents = sorted((e for e in os.listdir(CACHE) if e.startswith("facts-")), key=_mtime)
+        ents = [e for e in ents if e != "facts-" + key] + ["facts-" + key]      # never evict the entry just produced
         for e in ents[:-keep]:
             shutil.rmtree(os.path.join(CACHE, e), ignore_errors=True)
         return d
